@@ -13,7 +13,7 @@ import copy
 import itertools
 import re
 
-from ..core.astutil import u, call_name, calls, iter_stmts, const, index_elts, ncmp, dot_args
+from ..core.astutil import u, call_name, calls, iter_stmts, const, index_elts, ncmp, dot_args, strip_docstring
 from ..core.index import AnalysisError
 from ..core.inline import normalise_statements, inline_single_exit_helpers
 
@@ -285,7 +285,9 @@ def r_johnson(idx, rep, rule="R-JOHNSON"):
         missing = sorted(want - cands)
         rep.check(not missing, rule2, "%s|%d sub-simplices" % (fname, len(want)), idx.func(O + "::" + fname).where,
                   "sub-simplices %s are never compared: the minimum-norm point can be missed" % missing, "%d of %d" % (len(cands & want), len(want)))
-    # (d) Solution.from_*
+    # (d) Solution.from_*: judged on the normal form of the method (private straight-line methods such as a shared `_combine` opened, attribute aliases
+    #     already read through by the Index, tuple assignments element-wise, temporaries resolved)
+    from ..core.astutil import assign_pairs
     sc = idx.cls(O + "::Solution")
     for mname, k in (("from_line_segment", 2), ("from_face", 3)):
         m = sc.methods.get(mname)
@@ -293,24 +295,32 @@ def r_johnson(idx, rep, rule="R-JOHNSON"):
             raise AnalysisError("Solution.%s vanished" % mname)
         ps = [p for p in m.params() if p != "self"]
         w = ps[2:]
-        body = list(iter_stmts(m.node.body))
-        stores = {}
+        body = list(iter_stmts(normalise_statements(idx, m.module, strip_docstring(m.node.body), cls=sc)))
+        stores, locs, sd = {}, {}, []
         for st in body:
-            if isinstance(st, ast.Assign) and isinstance(st.targets[0], ast.Subscript) and u(st.targets[0].value) == "self.barycentric_coordinates":
-                stores[const(st.targets[0].slice)] = st.value
-        locs = {st.targets[0].id: st.value for st in body if isinstance(st, ast.Assign) and isinstance(st.targets[0], ast.Name)}
+            for t_, v_ in assign_pairs(st):
+                if isinstance(t_, ast.Subscript) and u(t_.value) == "self.barycentric_coordinates":
+                    stores[const(t_.slice)] = v_
+                elif isinstance(t_, ast.Name):
+                    locs[t_.id] = v_
+                elif u(t_) == "self.search_direction":
+                    sd.append(v_)
+
+        def rs(e, depth=0):
+            return rs(locs[e.id], depth + 1) if isinstance(e, ast.Name) and e.id in locs and depth < 4 else e
         ok = True
         for i in range(k - 1):
             v = stores.get(i)
-            good = isinstance(v, ast.BinOp) and isinstance(v.op, ast.Div) and u(v.left) == w[i] and sorted(n_.id for n_ in ast.walk(locs.get(u(v.right), v.right)) if isinstance(n_, ast.Name)) == sorted(w)
+            den = rs(v.right) if isinstance(v, ast.BinOp) and isinstance(v.op, ast.Div) else None
+            good = den is not None and u(v.left) == w[i] and sorted(n_.id for n_ in ast.walk(den) if isinstance(n_, ast.Name)) == sorted(w)
             ok = ok and good
         last = stores.get(k - 1)
         ok = ok and last is not None and u(last).replace(" ", "").startswith("1.0-")
-        sd = [st for st in body if isinstance(st, ast.Assign) and u(st.targets[0]) == "self.search_direction"]
         good = False
-        if sd and dot_args(sd[0].value):
-            a, b = dot_args(sd[0].value)
-            good = u(a) == "self.barycentric_coordinates[:%d]" % k and u(b) == "%s.points[%s]" % (ps[0], ps[1])
+        if sd and dot_args(rs(sd[0])):
+            a_, b_ = dot_args(rs(sd[0]))
+            a_, b_ = rs(a_), rs(b_)
+            good = u(a_) == "self.barycentric_coordinates[:%d]" % k and u(b_) == "%s.points[%s]" % (ps[0], ps[1])
         rep.check(ok and good, rule, sc.key + ".%s|normalised weights applied to the listed vertices" % mname, m.where,
                   "Solution.%s must set coords[i] = w_i / sum(w) in argument order and search_direction = coords[:%d] . points[vertex list]" % (mname, k))
     # Solution.from_vertex: the single weight lives in slot 0 (weights are listed in subset order), the point and its squared norm are vertex vi's
@@ -388,70 +398,51 @@ def r_parallel(idx, rep, rule="R-PARALLEL"):
 
 
 def r_dottable(idx, rep, rule="R-DOTTABLE"):
-    """SimplexInfo.select_vertex / select_line_segment / select_face compact the lower-triangular table of inner products when the
-    vertices (i, j, k) become rows (0, 1, 2): entry [r, c] of the new table is entry [max(P_r, P_c), min(P_r, P_c)] of the old one."""
-    rep.rule(rule, "SimplexInfo.select_*: when vertex P_r becomes row r (via _move_vertex(P_r, r)), dot_product_table[r, c] is refilled from "
-                   "dot_product_table[max(P_r, P_c), min(P_r, P_c)] (only the lower triangle is maintained) — checked symbolically for every "
-                   "refill statement, including the orientation of the `(b, a) if a < b else (a, b)` selectors", floor=15)
+    """SimplexInfo.select_vertex / select_line_segment / select_face compact the simplex when the vertices (i, j, k) become rows (0, 1, 2): row r of
+    points / indices_polytope1 / indices_polytope2 must hold what row P_r held, and entry [r, c] (r >= c) of the lower-triangular table of inner
+    products must hold what entry [max(P_r, P_c), min(P_r, P_c)] held.  Decided by running each method — by interpretation of its syntax tree over
+    concrete indices and LABELLED cells (core/concrete.py) — for every ascending index tuple out of 0..3 (the sub-algorithm only selects in
+    ascending order), so helpers (`_dot_product(i, j)`), selectors written as conditional expressions, if statements or max/min, and local
+    aliases of the table all give the same verdict; reads of the (unmaintained) upper triangle and reads after an in-place overwrite show up as
+    a wrong label."""
+    import itertools as _it
+    from ..core.concrete import Interp as _CI, NotModelled as _NM
+    rep.rule(rule, "SimplexInfo.select_*: for every ascending selection out of 4 vertices, row r of the parallel containers receives row P_r and "
+                   "dot_product_table[r, c] (r >= c) receives the old [max(P_r, P_c), min(P_r, P_c)] — interpretation over concrete indices and labelled cells",
+             floor=8)
     ci = idx.cls("distance3d.gjk._gjk_original::SimplexInfo")
-    for name in ("select_vertex", "select_line_segment", "select_face"):
+    for name, k in (("select_vertex", 1), ("select_line_segment", 2), ("select_face", 3)):
         m = ci.methods.get(name)
         if m is None:
             raise AnalysisError("SimplexInfo.%s vanished" % name)
-        ps = [p for p in m.params() if p != "self"]
-        rowof = {}
-        for c in calls(m.node):
-            if isinstance(c.func, ast.Attribute) and c.func.attr == "_move_vertex" and len(c.args) == 2 and isinstance(c.args[0], ast.Name) and isinstance(const(c.args[1]), int):
-                rowof[const(c.args[1])] = c.args[0].id
-        want_rows = dict(enumerate(ps))
-        rep.check(rowof == want_rows, rule, m.key + "|vertex P_r becomes row r", m.where,
-                  "%s must move (%s) to rows %s; found %s" % (name, ", ".join(ps), list(range(len(ps))), rowof), str(rowof))
-        if rowof != want_rows:
-            continue
-        # walk statements in order, tracking the latest (idx1, idx2) selector
-        sel = None
-        n = 0
-
-        def walk(body):
-            nonlocal sel, n
-            for st in body:
-                if isinstance(st, ast.If):
-                    walk(st.body)
-                    walk(st.orelse)
-                    continue
-                if isinstance(st, ast.Assign) and isinstance(st.targets[0], ast.Tuple) and len(st.targets[0].elts) == 2 and isinstance(st.value, ast.IfExp):
-                    v = st.value
-                    t = ncmp(v.test)
-                    names = [e.id for e in st.targets[0].elts if isinstance(e, ast.Name)]
-                    ok = False
-                    pair = None
-                    if t is not None and t[0] in ("<", "<=") and isinstance(v.body, ast.Tuple) and isinstance(v.orelse, ast.Tuple) and len(v.body.elts) == 2 and len(v.orelse.elts) == 2:
-                        a, b = u(t[1]), u(t[2])       # a < b
-                        ok = [u(e) for e in v.body.elts] == [b, a] and [u(e) for e in v.orelse.elts] == [a, b]
-                        pair = frozenset((a, b))
-                    sel = (names, pair, ok, st)
-                    continue
-                if isinstance(st, ast.Assign) and isinstance(st.targets[0], ast.Subscript) and isinstance(st.targets[0].value, ast.Attribute) \
-                        and st.targets[0].value.attr == "dot_product_table" and isinstance(st.value, ast.Subscript):
-                    tg = index_elts(st.targets[0])
-                    sr = index_elts(st.value)
-                    if len(tg) != 2 or len(sr) != 2 or not all(isinstance(const(x), int) for x in tg):
-                        continue
-                    n += 1
-                    r, c_ = const(tg[0]), const(tg[1])
-                    key = "%s|refill [%d, %d] #%d" % (m.key, r, c_, n)
-                    where = "%s:%d" % (m.module.relpath, st.lineno)
-                    want = frozenset((rowof.get(r), rowof.get(c_)))
-                    if r == c_:
-                        good = u(sr[0]) == u(sr[1]) == rowof.get(r)
-                        why = "diagonal entry [%d, %d] must come from [%s, %s]; found [%s, %s]" % (r, c_, rowof.get(r), rowof.get(r), u(sr[0]), u(sr[1]))
-                    else:
-                        good = sel is not None and [u(x) for x in sr] == sel[0] and sel[1] == want and sel[2] and r > c_
-                        why = "entry [%d, %d] must come from [max, min] of (%s); found [%s, %s]%s" % (
-                            r, c_, ", ".join(sorted(x for x in want if x)), u(sr[0]), u(sr[1]),
-                            "" if sel is None else " with selector `%s`" % u(sel[3]))
-                    rep.check(good, rule, key, where, "SimplexInfo.%s: %s (stale or transposed inner products make the sub-algorithm pick the wrong feature)" % (name, why), "ok")
-        walk(m.node.body)
+        for sel in _it.combinations(range(4), k):
+            it = _CI(ci)
+            key0 = "%s|select%s" % (m.key, sel)
+            try:
+                it.call_method(name, list(sel))
+            except _NM as e:
+                rep.unknown(rule, key0 + " interpretation", m.where, "SimplexInfo.%s%s is not interpretable: %s" % (name, sel, e))
+                continue
+            cells = it.cells
+            n_pts = cells.scalars.get("n_simplex_points")
+            bad = []
+            if n_pts != k:
+                bad.append("n_simplex_points is %r, not %d" % (n_pts, k))
+            for r in range(k):
+                for attr in ("points", "indices_polytope1", "indices_polytope2"):
+                    got = cells.load(attr, (r,))
+                    if got != (attr, sel[r]):
+                        bad.append("%s[%d] holds the old %s (vertex %d must move there)" % (attr, r, "%s[%s]" % (got[0], ", ".join(map(str, got[1:]))), sel[r]))
+                for c_ in range(r + 1):
+                    got = cells.load("dot_product_table", (r, c_))
+                    want = ("dot_product_table", max(sel[r], sel[c_]), min(sel[r], sel[c_]))
+                    if got != want:
+                        note = " (an entry of the unmaintained upper triangle)" if len(got) == 3 and isinstance(got[1], int) and got[1] < got[2] else ""
+                        bad.append("dot_product_table[%d, %d] holds the old [%s]%s; it must hold the old [%d, %d] = <y_%d, y_%d>"
+                                   % (r, c_, ", ".join(map(str, got[1:])), note, want[1], want[2], sel[r], sel[c_]))
+            rep.check(not bad, rule, key0, m.where,
+                      "SimplexInfo.%s%s: %s (stale or transposed inner products make the sub-algorithm pick the wrong feature; a vertex whose coordinates and "
+                      "pre-image indices get out of step yields closest points on the wrong vertices)" % (name, sel, "; ".join(bad[:3])), "rows and table entries in place")
 
 
 def r_cofactorsign(idx, rep, rule="R-COFACTORSIGN"):
